@@ -125,6 +125,9 @@ func c06cases(thorough bool) []c06case {
 		{"stored-offer-not-follow", Doc("Offer", Follow1, "actor", Alice, "object", Carol, "target", Carol), false, nil},
 		{"stored-create-not-follow", Doc("Create", Follow1, "actor", Alice, "object", Emb("Note", Follow1+"/n", "content", "x"), "to", Carol), false, nil},
 		{"lacks-accepting-actor", Doc("Follow", Follow1, "actor", Alice, "object", Erin), true, []string{Erin}},
+		// the stored Follow names one followed actor twice: a repeated object must not vouch for a stranger
+		{"ours-object-twice", Doc("Follow", Follow1, "actor", Alice, "object", L{Carol, Carol}), true, []string{Carol}},
+		{"ours-object-twice-mixed-spelling", Doc("Follow", Follow1, "actor", Alice, "object", L{Carol, Emb("Person", Carol), Dave}), true, []string{Carol, Dave}},
 	}
 	claimed := Doc("Follow", Follow1, "actor", Alice, "object", L{Carol, Dave, Erin}) // what the peer claims
 	for _, st := range stored {
